@@ -7,6 +7,7 @@ import (
 	"strconv"
 	"strings"
 
+	"github.com/whatap/golib/io"
 	"github.com/whatap/golib/util/hash"
 	"github.com/whatap/golib/util/hmap"
 	"github.com/whatap/golib/util/stringutil"
@@ -266,6 +267,24 @@ func strEnum(en hmap.StringEnumer, rank func(string) int) []int {
 	}
 	return out
 }
+
+// image runs a ToBytes and returns what it wrote.
+func image(write func(*io.DataOutputX)) []byte {
+	d := io.NewDataOutputX()
+	write(d)
+	return d.ToByteArray()
+}
+
+// key32 maps a decoded integer back to the rank of an int32 key (0: no such key).
+func key32(p *hmapx.Pool[int32]) func(int64) int {
+	return func(k int64) int {
+		if k != int64(int32(k)) {
+			return 0
+		}
+		return p.Rank(int32(k))
+	}
+}
+
 func idInt32(v int32) int { return n2i(v) }
 func idInt64(v int64) int { return n2i(v) }
 
@@ -304,6 +323,28 @@ var Types = []TypeDef{
 			o := buildObjMap[int32]("IntKeyLinkedMap", m, p, p.Rank, keys, func(n int) { m.SetMax(n) })
 			o.Ops["GetLRU"] = func(op Op) Ev { return Ev{"ret": pObj(m.GetLRU(p.Key(op.K)))} }
 			o.Ops["ContainsValue"] = func(op Op) Ev { return Ev{"b": m.ContainsValue(op.V)} }
+			o.Ops["ToFormatString"] = func(op Op) Ev { return Ev{"len": len(m.ToFormatString())} }
+			o.Ops["ValueIterator"] = func(op Op) Ev {
+				out := []int{}
+				if en, ok := m.ValueIterator().(hmap.Enumeration); ok {
+					drain(en, func(x interface{}) { out = append(out, pObj1(x)) })
+				} else {
+					out = append(out, Bad)
+				}
+				return Ev{"seq": out}
+			}
+			o.Ops["GetKeySet"] = func(op Op) Ev { return Ev{"seq": intEnum(m.GetKeySet().Keys(), p.Rank)} }
+			o.Ops["ToKeySet"] = func(op Op) Ev { // a list standing for an unordered Java set: compared as a set
+				out := []int{}
+				for e := m.ToKeySet().Front(); e != nil && len(out) < enumLimit; e = e.Next() {
+					if k, ok := e.Value.(int32); ok {
+						out = append(out, p.Rank(k))
+					} else {
+						out = append(out, Bad)
+					}
+				}
+				return Ev{"seq": out}
+			}
 			return o
 		}
 	}},
@@ -336,6 +377,11 @@ var Types = []TypeDef{
 			values := func() []int { return intEnum(m.Values(), idInt32) }
 			o := buildNumMap[int32, int32]("IntIntLinkedMap", m, p, keys, values, func(n int) { m.SetMax(n) })
 			o.Ops["AddNoOver"] = func(op Op) Ev { return Ev{"ret": pNum(m.AddNoOver(p.Key(op.K), int32(op.V)))} }
+			o.Ops["ToBytes"] = func(op Op) Ev {
+				b := image(func(d *io.DataOutputX) { m.ToBytes(d) })
+				m2 := hmap.NewIntIntLinkedMap().ToObject(io.NewDataInputX(b))
+				return Ev{"pairs": wirePairs(b, key32(p), false), "copy": numPairs[int32, int32](m2.Entries(), p.Rank)}
+			}
 			return o
 		}
 	}},
@@ -352,7 +398,13 @@ var Types = []TypeDef{
 				}
 				return out
 			}
-			return buildNumMap[int32, float32]("IntFloatLinkedMap", m, p, keys, values, func(n int) { m.SetMax(n) })
+			o := buildNumMap[int32, float32]("IntFloatLinkedMap", m, p, keys, values, func(n int) { m.SetMax(n) })
+			o.Ops["ToBytes"] = func(op Op) Ev {
+				b := image(func(d *io.DataOutputX) { m.ToBytes(d) })
+				m2 := hmap.NewIntFloatLinkedMap().ToObject(io.NewDataInputX(b))
+				return Ev{"pairs": wirePairs(b, key32(p), true), "copy": numPairs[int32, float32](m2.Entries(), p.Rank)}
+			}
+			return o
 		}
 	}},
 	{Name: "LongFloatLinkedMap", VLo: -3, VHi: 9, New: func(r *rand.Rand, n int, c Ctor, small bool) func() *hmapx.Obj {
@@ -368,7 +420,13 @@ var Types = []TypeDef{
 				}
 				return out
 			}
-			return buildNumMap[int64, float32]("LongFloatLinkedMap", m, p, keys, values, func(n int) { m.SetMax(n) })
+			o := buildNumMap[int64, float32]("LongFloatLinkedMap", m, p, keys, values, func(n int) { m.SetMax(n) })
+			o.Ops["ToBytes"] = func(op Op) Ev {
+				b := image(func(d *io.DataOutputX) { m.ToBytes(d) })
+				m2 := hmap.NewLongFloatLinkedMap().ToObject(io.NewDataInputX(b))
+				return Ev{"pairs": wirePairs(b, p.Rank, true), "copy": numPairs[int64, float32](m2.Entries(), p.Rank)}
+			}
+			return o
 		}
 	}},
 	{Name: "LongLongLinkedMap", HasCtor: true, VLo: -3, VHi: 9, New: func(r *rand.Rand, n int, c Ctor, small bool) func() *hmapx.Obj {
@@ -382,21 +440,32 @@ var Types = []TypeDef{
 			}
 			keys := func() []int { return longEnum(m.Keys(), p.Rank) }
 			values := func() []int { return longEnum(m.Values(), idInt64) }
-			return buildNumMap[int64, int64]("LongLongLinkedMap", m, p, keys, values, func(n int) { m.SetMax(n) })
+			o := buildNumMap[int64, int64]("LongLongLinkedMap", m, p, keys, values, func(n int) { m.SetMax(n) })
+			o.Ops["ToBytes"] = func(op Op) Ev {
+				b := image(func(d *io.DataOutputX) { m.ToBytes(d) })
+				m2 := hmap.NewLongLongLinkedMapDefault().ToObject(io.NewDataInputX(b))
+				return Ev{"pairs": wirePairs(b, p.Rank, false), "copy": numPairs[int64, int64](m2.Entries(), p.Rank)}
+			}
+			o.Ops["SetNullValue"] = func(op Op) Ev { m.SetNullValue(int64(op.V)); return Ev{} }
+			return o
 		}
 	}},
 	{Name: "StringIntLinkedMap", VLo: -3, VHi: 9, New: func(r *rand.Rand, n int, c Ctor, small bool) func() *hmapx.Obj {
 		p := poolStr(r, n, hCrc, c.Caps(), small, true, 4)
 		return func() *hmapx.Obj {
 			m := hmap.NewStringIntLinkedMap()
-			return buildStrNumMap[int32]("StringIntLinkedMap", m, p, func(n int) { m.SetMax(n) })
+			o := buildStrNumMap[int32]("StringIntLinkedMap", m, p, func(n int) { m.SetMax(n) })
+			o.Ops["SetNullValue"] = func(op Op) Ev { m.SetNullValue(int32(op.V)); return Ev{} }
+			return o
 		}
 	}},
 	{Name: "StringLongLinkedMap", VLo: -3, VHi: 9, New: func(r *rand.Rand, n int, c Ctor, small bool) func() *hmapx.Obj {
 		p := poolStr(r, n, hCrc, c.Caps(), small, true, 4)
 		return func() *hmapx.Obj {
 			m := hmap.NewStringLongLinkedMap()
-			return buildStrNumMap[int64]("StringLongLinkedMap", m, p, func(n int) { m.SetMax(n) })
+			o := buildStrNumMap[int64]("StringLongLinkedMap", m, p, func(n int) { m.SetMax(n) })
+			o.Ops["SetNullValue"] = func(op Op) Ev { m.SetNullValue(int64(op.V)); return Ev{} }
+			return o
 		}
 	}},
 	{Name: "LinkedSet", VLo: 0, VHi: 0, New: func(r *rand.Rand, n int, c Ctor, small bool) func() *hmapx.Obj {
@@ -481,8 +550,10 @@ var Types = []TypeDef{
 			}
 			keys := func() []int { return strEnum(m.Keys(), p.Rank) }
 			keyArray := func() []int { return p.Ranks(m.GetArray()) }
-			return buildSet[string]("StringLinkedSet", m, p, p.Rank, pk, keys, keyArray, func(n int) { m.SetMax(n) },
+			o := buildSet[string]("StringLinkedSet", m, p, p.Rank, pk, keys, keyArray, func(n int) { m.SetMax(n) },
 				Ev{"set": true, "none": []int{}, "rej": true, "ek": p.Rank("")})
+			o.Ops["Unipoint"] = func(op Op) Ev { return Ev{"rk": p.Rank(m.Unipoint(p.Key(op.K)))} }
+			return o
 		}
 	}},
 }
